@@ -58,9 +58,10 @@ func anyInvalid(o geojson.Object) bool {
 	case *geojson.Feature:
 		return anyInvalid(v.Base())
 	case geojson.Collection:
-		if !o.Valid() {
-			return true
-		}
+		// a collection has no positions of its own: it is invalid iff a child is
+		// (its own Valid() looks at the rectangle, which for a Circle child is
+		// the polygon approximation's and may leave the range although every
+		// position is in it)
 		for _, c := range v.Children() {
 			if anyInvalid(c) {
 				return true
@@ -369,6 +370,18 @@ func circleStripDocs() []string {
 			out = append(out, `{"type":"GeometryCollection","geometries":[{"type":"Point","coordinates":`+p+`},{"type":"Point","coordinates":`+centre+`}]}`)
 		}
 		out = append(out, `{"type":"MultiPoint","coordinates":[`+strings.Join(rim, ",")+`]}`)
+		// the circle itself as a child of collections (1, 2 and 64 children), probed by the rim points
+		cf := `{"type":"Feature","geometry":{"type":"Point","coordinates":` + centre + `},"properties":{"type":"Circle","radius":` + f(c[2]) + `,"radius_units":"m"}}`
+		small := `{"type":"Feature","geometry":{"type":"Point","coordinates":` + centre + `},"properties":{"type":"Circle","radius":1000,"radius_units":"m"}}`
+		out = append(out, cf) // the circle on its own (its polygon may leave the longitude range: still a valid object)
+		out = append(out, `{"type":"FeatureCollection","features":[`+cf+`]}`)
+		out = append(out, `{"type":"GeometryCollection","geometries":[{"type":"Point","coordinates":[0,0]},`+cf+`]}`)
+		var many []string
+		for i := 0; i < 63; i++ {
+			many = append(many, small)
+		}
+		many = append(many, cf)
+		out = append(out, `{"type":"FeatureCollection","features":[`+strings.Join(many, ",")+`]}`)
 		// 70 features: the centre many times over, one rim point
 		for _, k := range []int{2, 8, 18} {
 			var fs []string
